@@ -11,53 +11,53 @@ NOTE = ("Trusted base: go/types + go/ssa (x/tools v0.29.0), CHA/VTA call-graph o
 # id -> (technique, level text, design ref)
 CLAIMS = {
  "C02": ("value-provenance and guarded-by rules at both construction sites, must-close on refusing paths, constant evaluation of the server tls.Config, flag-sensitive path search for the SKI<->key binding",
-         "Structural necessary conditions of 'identity bound to the presented certificate': SKI taken from PeerCertificates[0] of this connection only, construction reachable only through the pass edges of sub-protocol / certificate / SKI-extraction / SKI-equality checks, refusing paths close the socket, server config requires client cert + TLS>=1.2 + the SHIP suites + a callback that succeeds only with a valid SKI, SkiFromCertificate succeeds only on the SHA-1(public key)==SubjectKeyId edge, generator uses the same derivation. TLS negotiation outcomes are not decided. Upgrader and Dialer are configured with the 'ship' sub-protocol. Checks that were moved into package-local verification helpers are followed (calling contexts, lifted guard edges).",
+         "Structural necessary conditions of 'identity bound to the presented certificate': SKI taken from PeerCertificates[0] of this connection only, construction reachable only through the pass edges of sub-protocol / certificate / SKI-extraction / SKI-equality checks, refusing paths close the socket, server config requires client cert + TLS>=1.2 + the SHIP suites + a callback that succeeds only with a valid SKI, SkiFromCertificate succeeds only on the SHA-1(public key)==SubjectKeyId edge, generator uses the same derivation. TLS negotiation outcomes are not decided. Upgrader and Dialer are configured with the 'ship' sub-protocol. Checks that were moved into package-local verification helpers are followed (calling contexts, lifted guard edges). The generator hashes a library-produced fixed-length key encoding.",
          "DESIGN.md §3 C02"),
  "C07": ("def-use taint of document bytes into Replace/Trim/regexp sites, type rules on decode targets, structural rules on the recursive tree rewrite, idiom rules on the inverse scanner's string-literal handling",
-         "Structural necessary conditions of the lossless round trip: no context-free structural rewriting of document bytes, order/number-preserving decode with single-member maps, the rewrite recurses into every child of both container kinds and emits the rewritten child, the envelope splice never searches payload bytes, the inverse scanner skips string literals and escape pairs. Semantic equality over all documents and the []/{} ambiguity of the wire form are not decided. Rewritten containers are created non-nil; the inverse transform returns memory no later call can write.",
+         "Structural necessary conditions of the lossless round trip: no context-free structural rewriting of document bytes, order/number-preserving decode with single-member maps, the rewrite recurses into every child of both container kinds and emits the rewritten child, the envelope splice never searches payload bytes, the inverse scanner skips string literals and escape pairs. Semantic equality over all documents and the []/{} ambiguity of the wire form are not decided. Rewritten containers are created non-nil; the inverse transform returns memory no later call can write. The rewrite converts no scalar (number literals keep their text); known finding C07.R7: the inverse maps the wire token [] to {} (empty arrays do not survive; inherent ambiguity of the wire form).",
          "DESIGN.md §3 C07"),
  "C08": ("panic-obligation enumeration over VTA-reachable code with a dominating-guard prover; blocking-operation rule on the receive path; lock-order graph (interprocedural must-locksets + acquire summaries) cycle check",
-         "Every may-panic instruction (index, slice, optional JSON pointer deref, unchecked type assertion, integer division, explicit panic) in repo code reachable from peer-driven entries is discharged by a dominating guard or a reviewed exception; blocking channel operations on the receive path have timeout/escape arms; the lock-order graph is acyclic. Panics inside dependencies and resource exhaustion are not decided. Every gorilla write, including the close frame, holds the write mutex.",
+         "Every may-panic instruction (index, slice, optional JSON pointer deref, unchecked type assertion, integer division, explicit panic) in repo code reachable from peer-driven entries is discharged by a dominating guard or a reviewed exception; blocking channel operations on the receive path have timeout/escape arms; the lock-order graph is acyclic. Panics inside dependencies and resource exhaustion are not decided. Every gorilla write, including the close frame, holds the write mutex. Waits on the receive path have constant durations; the map handed to the report goroutine is a copy (imported from C17.R3).",
          "DESIGN.md §3 C08"),
  "C16": ("writer/reader table extraction and agreement over resolved constants and field provenance; idiom rules for TXT splitting and rune-safe truncation; taint rule for the QR text",
-         "Structural necessary conditions of 'announced TXT = what a ship-go browser reads back': key/value tables of announce routine and resolver callback agree with each other and with SHIP 7.3.2, TXT items split at the first '=', descriptive fields cut at a rune boundary within 32 bytes, every interpolated QR value passes the ';' remover, a changed auto-accept flag is re-announced. Round-trip equality over all strings is not decided. Also decided: the rune-boundary loop is left only on RuneStart(s[cut]) or cut <= 0; the TXT parser stores the bytes after the first '=' unchanged. The re-announce after a reconnect passes the currently stored TXT list (shared with C19.R1).",
+         "Structural necessary conditions of 'announced TXT = what a ship-go browser reads back': key/value tables of announce routine and resolver callback agree with each other and with SHIP 7.3.2, TXT items split at the first '=', descriptive fields cut at a rune boundary within 32 bytes, every interpolated QR value passes the ';' remover, a changed auto-accept flag is re-announced. Round-trip equality over all strings is not decided. Also decided: the rune-boundary loop is left only on RuneStart(s[cut]) or cut <= 0; the TXT parser stores the bytes after the first '=' unchanged. The re-announce after a reconnect passes the currently stored TXT list (shared with C19.R1). Textual TXT values are stored verbatim; loops assembling the QR text have no early exit.",
          "DESIGN.md §3 C16"),
  "C17": ("guarded-by (path-sensitive for repeated conditions) on insert/delete sites, loop early-exit check, lockset + freshness rules for snapshots, flag-sensitive change=>report search, async-ordering rule",
-         "Structural necessary conditions of 'visible-services view tracks the mDNS history': validity filter dominates every modification, address hygiene and complete merge loops, snapshot copies under the mutex, every change dispatches a report. The per-change report goroutines (ordering) are a recorded known finding. History equivalence is not decided. Also decided: merged and new-entry addresses are drawn from the list the link-local filter built (value provenance). Lookup, store and delete of one event use one key value.",
+         "Structural necessary conditions of 'visible-services view tracks the mDNS history': validity filter dominates every modification, address hygiene and complete merge loops, snapshot copies under the mutex, every change dispatches a report. The per-change report goroutines (ordering) are a recorded known finding. History equivalence is not decided. Also decided: merged and new-entry addresses are drawn from the list the link-local filter built (value provenance). Lookup, store and delete of one event use one key value. The own-service test compares the SKI only.",
          "DESIGN.md §3 C17"),
  "C18": ("async-ordering rule on notification call sites, value-provenance rule (notified = stored), exhaustive constant evaluation of the state mapping function",
-         "Which notification arrives last is a scheduling question; decided: notifications are not issued from per-event goroutines (the one existing site is a recorded known finding), the notified detail is the stored object, query and update share one total mapping whose four stable outcomes are distinct (evaluated for all 40 states). Also decided: a notification issued from a per-change goroutine waits one constant delay shared by all such sites and is skipped only on a condition of that SKI's own record. Every modification of a stored pairing detail is followed by a notification on every path; a cancel that was announced ends the pending handshake (shared with C10.R3).",
+         "Which notification arrives last is a scheduling question; decided: notifications are not issued from per-event goroutines (the one existing site is a recorded known finding), the notified detail is the stored object, query and update share one total mapping whose four stable outcomes are distinct (evaluated for all 40 states). Also decided: a notification issued from a per-change goroutine waits one constant delay shared by all such sites and is skipped only on a condition of that SKI's own record. Every modification of a stored pairing detail is followed by a notification on every path; a cancel that was announced ends the pending handshake (shared with C10.R3). The update callback stores every state that differs from the stored one; the detail cell stores the pointer it is given.",
          "DESIGN.md §3 C18"),
  "C19": ("provenance + lockset + dominance rules on the avahi reconnect path, who-may-write for the manual-shutdown flag, must-pass bookkeeping rules, hand-over lock rule",
-         "Structural necessary conditions of 'reconnect without stale or lost announcements': re-announce reads the stored data under the mutex after the restart, the reconnect goroutine cannot clear the manual-shutdown flag and re-checks it in the restart's critical section, Announce/Unannounce/Shutdown bookkeeping on all paths, single listener, the Shutdown hand-over cannot deadlock on the provider mutex. Fault sequences as such are not decided. Also decided: channels handed to the once-started listener are made only when nil and reset only after the listener was marked stopped. The service browser is freed before the listener is told to stop.",
+         "Structural necessary conditions of 'reconnect without stale or lost announcements': re-announce reads the stored data under the mutex after the restart, the reconnect goroutine cannot clear the manual-shutdown flag and re-checks it in the restart's critical section, Announce/Unannounce/Shutdown bookkeeping on all paths, single listener, the Shutdown hand-over cannot deadlock on the provider mutex. Fault sequences as such are not decided. Also decided: channels handed to the once-started listener are made only when nil and reset only after the listener was marked stopped. The service browser is freed before the listener is told to stop. The announced flag is cleared only together with the provider's Unannounce.",
          "DESIGN.md §3 C19"),
  "C20": ("Eraser-style static lockset analysis (interprocedural must-locksets, read/write lock modes) over all fields and map contents of the eight shared structs; snapshot deep-copy rule",
-         "Lockset consistency per field: all post-construction writes share a mutex in exclusive mode and every read holds it; fields written only during construction are immutable; a reviewed table names fields confined by hand-over. Two unlocked writers of MdnsManager.mdnsProvider are recorded known findings. Races only the dynamic detector can observe are not decided. Package-level variables written after initialisation hold a common mutex; no by-value load of a struct that contains a mutex.",
+         "Lockset consistency per field: all post-construction writes share a mutex in exclusive mode and every read holds it; fields written only during construction are immutable; a reviewed table names fields confined by hand-over. Two unlocked writers of MdnsManager.mdnsProvider are recorded known findings. Races only the dynamic detector can observe are not decided. Package-level variables written after initialisation hold a common mutex; no by-value load of a struct that contains a mutex. SetWriteDeadline and the other gorilla write methods hold the write mutex.",
          "DESIGN.md §3 C20"),
 
  "C01": ("finite-domain abstract interpretation of package ship's SSA (handshake automaton extraction, all entries x 40 states x both roles) + who-may-call/guarded-by rules in package hub",
-         "Inductive invariant over the extracted automaton: every transition from a pre-trust into a post-trust state is on a path that passed the positive edge of a trust predicate or is the user-approval step; setup callback only in state Approved; SPINE reader only from that callback, delivery only through it; hub sets trust only on registration or hello-ok and approves pending handshakes only from RegisterRemoteSKI. This is the universally quantified reachability clause (no message/timeout/error sequence advances an untrusted peer) decided on an over-approximation of the code; application callback logic is not decided. The dial gate may be a boolean helper; it is accepted only when every true result implies paired-or-queued. Revocation (unregister / cancel) clears trust, resets the stored state and ends the connection on every path; the inbound connection is created under the SKI of PeerCertificates[0] (rules shared with C10, C02).",
+         "Inductive invariant over the extracted automaton: every transition from a pre-trust into a post-trust state is on a path that passed the positive edge of a trust predicate or is the user-approval step; setup callback only in state Approved; SPINE reader only from that callback, delivery only through it; hub sets trust only on registration or hello-ok and approves pending handshakes only from RegisterRemoteSKI. This is the universally quantified reachability clause (no message/timeout/error sequence advances an untrusted peer) decided on an over-approximation of the code; application callback logic is not decided. The dial gate may be a boolean helper; it is accepted only when every true result implies paired-or-queued. Revocation (unregister / cancel) clears trust, resets the stored state and ends the connection on every path; the inbound connection is created under the SKI of PeerCertificates[0] (rules shared with C10, C02). Identity rules of C02 (first certificate, key binding, every dial attempt checked) are imported.",
          "DESIGN.md §3 C01"),
  "C03": ("table agreement over resolved constants (sent vs. compared wire enums, versions, model types, member-name literals vs. JSON tags) + automaton rules (trust decision edges, DAG check, terminal => close)",
-         "Necessary conditions of two ship-go endpoints agreeing: both roles of the same code speak the same alphabet, a trusted/approving server takes the ready path, the progress graph is acyclic with the setup callback in state Approved, a side that gives up closes. Agreement under delays and timer interleavings of two processes is not decided. The hello handlers re-arm the wait-for-ready timer on the allowed edge of AllowWaitingForTrust; RegisterRemoteSKI records trust on every path. A timer armed from the partner's announced waiting time is that time minus a positive constant; a failed transport write is reported and the SHIP layer reacts with CloseConnection (shared with C13).",
+         "Necessary conditions of two ship-go endpoints agreeing: both roles of the same code speak the same alphabet, a trusted/approving server takes the ready path, the progress graph is acyclic with the setup callback in state Approved, a side that gives up closes. Agreement under delays and timer interleavings of two processes is not decided. The hello handlers re-arm the wait-for-ready timer on the allowed edge of AllowWaitingForTrust; RegisterRemoteSKI records trust on every path. A timer armed from the partner's announced waiting time is that time minus a positive constant; a failed transport write is reported and the SHIP layer reacts with CloseConnection (shared with C13). The abort entry ends both waiting states for both roles; the lock-order graph is acyclic (imported from C08.R3).",
          "DESIGN.md §3 C03"),
  "C04": ("finite-domain abstract interpretation of package ship's SSA: extracted transition relation compared with the SHIP 1.0.1 state graph; finality, timer and close rules over all entry paths",
          "The whole reachable edge relation (every entry point from every state, both roles, every transport write may fail) is contained in the specification graph; terminal states are only left into Error, no arm / no non-closing send in a terminal state, timer flag false and transport closed when a terminal or the completed state is entered. Timer durations are not decided. A received close announce is answered and closed on the reader goroutine itself. Every path of the close-once body closes the transport and reports the end once (shared with C11).",
          "DESIGN.md §3 C04"),
  "C05": ("path enumeration with exhaustive abstract-input evaluation of the double-connection decision; must-pass-through rules (attempt flag, reconnect trigger, construct=>run=>register, end report)",
-         "Necessary conditions of convergence to one connection: the keep/drop decision is antisymmetric between initiator and acceptor and order-dependent (exhaustive over its finite abstraction), the attempt-running flag is always released, a closed trusted/completed connection always triggers re-announce+request, every constructed connection is run and registered unconditionally, every connection end is reported. Convergence in bounded time under disturbances is not decided. The attempt counter advances only on the scheduling path; registration records trust on every path. On the way to the dial the stored pairing state is compared with no constant other than Queued.",
+         "Necessary conditions of convergence to one connection: the keep/drop decision is antisymmetric between initiator and acceptor and order-dependent (exhaustive over its finite abstraction), the attempt-running flag is always released, a closed trusted/completed connection always triggers re-announce+request, every constructed connection is run and registered unconditionally, every connection end is reported. Convergence in bounded time under disturbances is not decided. The attempt counter advances only on the scheduling path; registration records trust on every path. On the way to the dial the stored pairing state is compared with no constant other than Queued. Imports the registry-atomicity rule (C11.R3) and the transport-liveness rules (C13.R2/R6).",
          "DESIGN.md §3 C05"),
  "C06": ("path enumeration of the incoming-frame entry, lockset and provenance rules for the pre-completion buffer, channel-discipline rules for the outgoing queue",
-         "Necessary conditions of exactly-once in-order delivery: deliver xor buffer on every data path with the right guards and provenance, fresh decode target, buffer accessed under its mutex, tail appends, in-order flush that empties the buffer and is called synchronously after the reader is installed, single consumer / serialised producers of the outgoing queue, delivery only through the installed reader. End-to-end histories are not decided. The routing predicate consults exactly the datagram marker; the enqueue select has only the send arm and the close escape. The data-writer entry reaches the transport enqueue on every path except transform-error and closed-transport exits.",
+         "Necessary conditions of exactly-once in-order delivery: deliver xor buffer on every data path with the right guards and provenance, fresh decode target, buffer accessed under its mutex, tail appends, in-order flush that empties the buffer and is called synchronously after the reader is installed, single consumer / serialised producers of the outgoing queue, delivery only through the installed reader. End-to-end histories are not decided. The routing predicate consults exactly the datagram marker; the enqueue select has only the send arm and the close escape. The data-writer entry reaches the transport enqueue on every path except transform-error and closed-transport exits. The flush of held-back datagrams is preceded by the state change to Complete.",
          "DESIGN.md §3 C06"),
  "C09": ("path enumeration with literals (decision table) of the access-methods handler + automaton state rules + who-may-write + provenance at hub construction sites",
-         "The SHIP-ID decision table of the handler is decided on all its feasible paths (pin, first-time report exactly once before approval, rejection), the stored id has two writers only, and both hub construction sites pass the stored id of the same stored service. Behaviour over later inputs rests on C04's finality. The hub forwards the SHIP-ID report synchronously. The hub forwards the report on every path (no per-SKI memo).",
+         "The SHIP-ID decision table of the handler is decided on all its feasible paths (pin, first-time report exactly once before approval, rejection), the stored id has two writers only, and both hub construction sites pass the stored id of the same stored service. Behaviour over later inputs rests on C04's finality. The hub forwards the SHIP-ID report synchronously. The hub forwards the report on every path (no per-SKI memo). Get-or-create of the service record is atomic; the library never writes the stored SHIP ID.",
          "DESIGN.md §3 C09"),
  "C10": ("who-may-call / guarded-by / must-pass-through rules in package hub, automaton rule for the abort entry, SKI taint rule",
-         "Necessary conditions of 'pairing follows user intent': single gated dial function (paired-or-queued check in the dialling invocation, shutdown flag), unregister/cancel effects on all paths, abort entry ends terminal from both waiting states, user SKI spelling normalised before lookups. Multi-hub operation histories are not decided.",
+         "Necessary conditions of 'pairing follows user intent': single gated dial function (paired-or-queued check in the dialling invocation, shutdown flag), unregister/cancel effects on all paths, abort entry ends terminal from both waiting states, user SKI spelling normalised before lookups. Multi-hub operation histories are not decided. Imports the identity rules of C02 (the dialled service is the registered one) and the trust-writer rule of C01.",
          "DESIGN.md §3 C10"),
  "C11": ("who-may-call (close-once ownership), exactly-once path counting, lockset + guarded-by for the registry delete, re-entrancy detection by the automaton interpreter",
-         "Necessary conditions of 'every connection end accounted for exactly once': all end reports and transport closes of package ship are inside the shutdownOnce body, that body reports exactly once on every path and is never re-entered, the hub deletes a registry entry only under an identity check made in the same critical section, the hub notifies the application exactly once per end. The settled notification sequence of real runs is not decided. Also decided: the connection that loses the double-connection decision is closed with safe=false (no deferred end report). Every path of HandleConnectionClosed examines the registry.",
+         "Necessary conditions of 'every connection end accounted for exactly once': all end reports and transport closes of package ship are inside the shutdownOnce body, that body reports exactly once on every path and is never re-entered, the hub deletes a registry entry only under an identity check made in the same critical section, the hub notifies the application exactly once per end. The settled notification sequence of real runs is not decided. Also decided: the connection that loses the double-connection decision is closed with safe=false (no deferred end report). Every path of HandleConnectionClosed examines the registry. Every way the transport can end is reported (imported from C13.R2/R4/R7).",
          "DESIGN.md §3 C11"),
  "C14": ("channel/typestate discipline of the timer mechanism over go/ssa: per-arm token and time source, close-based cancellation on all stop paths, lock-protected identity re-validation on fire, no loop; reachability over the extracted handshake automaton (E1) for phase-local timers",
          "The schedule property is not static; decided is that the cancellation protocol is not lossy by construction (the lost-stop, stale-goroutine and stale-tick windows do not exist structurally). Real timing is not decided. Also decided: every path of the arming function starts its timer goroutine, and - over the reachable quiescent configurations of the extracted handshake automaton - no run leaves a handshake phase with a timer it neither stopped nor re-armed. A timer goroutine writes the connection's timer bookkeeping only behind its identity check.",
@@ -67,10 +67,10 @@ CLAIMS = {
          "DESIGN.md §3 C15"),
 
  "C12": ("channel close/send discipline, escape-arm, must-pass path rules, interprocedural lock analysis (blocked-writer vs. close routine, serialised transport writes) over go/ssa of package ws; interprocedural precedes-rule",
-         "Structural necessary conditions of 'write vs. close never panics or hangs': no sent-to channel is closed by another goroutine, every enqueue is a select with an escape arm on a channel the close routine closes, closed flag read dominates the enqueue and only the enqueue path returns nil, the close routine never needs a lock a blocked writer holds, all transport writes hold one mutex. The racing interleaving the property quantifies over exists exactly when one of these is broken; the prefix property at the peer is not decided. Also decided: every ReportConnectionError of package ws is preceded by the close routine, so writers blocked on the full queue are released before the SHIP layer reacts. One queue, one consumer (shared with C06.R3); no function of package ws returns with a mutex it acquired still locked.",
+         "Structural necessary conditions of 'write vs. close never panics or hangs': no sent-to channel is closed by another goroutine, every enqueue is a select with an escape arm on a channel the close routine closes, closed flag read dominates the enqueue and only the enqueue path returns nil, the close routine never needs a lock a blocked writer holds, all transport writes hold one mutex. The racing interleaving the property quantifies over exists exactly when one of these is broken; the prefix property at the peer is not decided. Also decided: every ReportConnectionError of package ws is preceded by the close routine, so writers blocked on the full queue are released before the SHIP layer reacts. One queue, one consumer (shared with C06.R3); no function of package ws returns with a mutex it acquired still locked. Close routine releases on every path (imported from C13.R1); connection fields obey the lockset discipline (imported from C20.R1).",
          "DESIGN.md §3 C12"),
  "C13": ("must-pass-through / guarded-by / exactly-once path rules over go/ssa CFG of package ws and ship",
-         "Structural necessary conditions of 'transport loss is reported and releases goroutines and socket': the sync.Once close routine closes stop channel and socket on every path, every flag-setting site runs it, read-error path reports exactly once and leaves the loop, delivery is guarded by no-error and not-closed, write failure reaches ReportConnectionError, closed-query returns non-nil error when closed, pumps select on the stop channel, ship.ReportConnectionError always closes, write errors caused by a local close are not reported, the close routine is not blocked behind a writer's lock. Real termination timing is not decided.",
+         "Structural necessary conditions of 'transport loss is reported and releases goroutines and socket': the sync.Once close routine closes stop channel and socket on every path, every flag-setting site runs it, read-error path reports exactly once and leaves the loop, delivery is guarded by no-error and not-closed, write failure reaches ReportConnectionError, closed-query returns non-nil error when closed, pumps select on the stop channel, ship.ReportConnectionError always closes, write errors caused by a local close are not reported, the close routine is not blocked behind a writer's lock. Real termination timing is not decided. Only the receiving side extends the read deadline; no upward report is reachable from CloseDataConnection.",
          "DESIGN.md §3 C13"),
 }
 NA = {}
